@@ -888,7 +888,7 @@ pub fn run(eng: &mut Engine) {
         PartCfg::new(
             "mutations",
             "1-4 mutations of a corpus session: bit flips, byte sets, truncation, extension, splicing, duplication, reordering, field-aware edits through the reference codec (HDR_LEN, flag bits, HET/HEL, every FTI field, instance id, codepoint, SBN/ESI/SBL, B/A flags, EXT_TIME use bits, TOI/TSI, payload length), raw byte strings and foreign FDT instances (hostile attribute values, OTI attributes, malformed XML, 10^4 File elements) with follow-up object packets; non-trivial = at least one packet of the sequence parses; distinct by case",
-            tier.pick(40_000, 1_500_000),
+            tier.pick(300_000, 6_000_000),
         )
         .hang_violates()
         .limit_s(60),
@@ -904,7 +904,7 @@ pub fn replay(part: &str, case: &Value) -> Option<CaseResult> {
             Some(run_sequence(&[b], 16 << 10, true).map(|_| CaseInfo::new()))
         }
         "header-subst" => Some(run_subst(&serde_json::from_value(case.clone()).ok()?)),
-        "mutations" | "pinned" => Some(run_seq_case(&serde_json::from_value(case.clone()).ok()?)),
+        "mutations" | "pinned" | "regress" => Some(run_seq_case(&serde_json::from_value(case.clone()).ok()?)),
         _ => None,
     }
 }
